@@ -13,6 +13,7 @@ from checklib import *
 # property table.  kind t1: traced units + reflective theorems + correspondence.
 PROPS = {
     'C02': dict(kind='t1', units='C02', corr_quick=60, corr_thorough=4000),
+    'C04': dict(kind='t1', units='C04', corr_quick=200, corr_thorough=10000),
     'C08': dict(kind='t1', units='C08', corr_quick=200, corr_thorough=10000),
     'C09': dict(kind='t1', units='C09', corr_quick=200, corr_thorough=10000),
     'C10': dict(kind='t1', units='C10', corr_quick=300, corr_thorough=20000),
